@@ -128,9 +128,113 @@ def h15c_merged_neighbour(row, col, side, older):
     assert side_of(t.cell(nr, nc), OPP[side]) is second
 
 
+# ------------------------------------------------------------------------------------------------ saved stroke layers
+class Run:
+    """a stroke run record (StrokeRunArchive seen as an attribute bag): origin, length, order, and the Border it carries"""
+
+    def __init__(self, origin=0, length=0, order=0, border=None):
+        self.origin, self.length, self.order, self.border = origin, length, order, border
+
+    def CopyFrom(self, other):
+        self.origin, self.length, self.order, self.border = other.origin, other.length, other.order, other.border
+
+
+def new_run(eng=None, *a, **kw):
+    return Run()
+
+
+class Ref:
+    def __init__(self, identifier=0):
+        self.identifier = identifier
+
+
+def new_ref(eng=None, *a, **kw):
+    return Ref(kw.get("identifier", 0))
+
+
+class Rec:
+    def __init__(self, **kw):
+        self.__dict__.update(kw)
+
+
+class LayerStore:
+    def __init__(self):
+        self.store = {}
+        self.next = 100
+
+    def __getitem__(self, k):
+        return self.store[k]
+
+    def create_object_from_dict(self, iwa, d, cls):
+        self.next += 1
+        obj = Rec(stroke_runs=[], **d)
+        self.store[self.next] = obj
+        return self.next, obj
+
+
+class StrokeModel:
+    """self for the real _NumbersModel.add_stroke (the run patching that decides what the SAVED file says)"""
+    add_stroke = _NumbersModel.add_stroke
+
+    def __init__(self):
+        self.objects = LayerStore()
+        self.sidecar = Rec(max_order=0, row_count=0, column_count=0, top_row_stroke_layers=[], right_column_stroke_layers=[],
+                           bottom_row_stroke_layers=[], left_column_stroke_layers=[])
+        self.objects.store[7] = Rec(stroke_sidecar=Ref(8), number_of_rows=8, number_of_columns=8)
+        self.objects.store[8] = self.sidecar
+
+    def create_stroke(self, origin, length, border_value):
+        """contract of the real create_stroke (protobuf construction): a run record for [origin, origin+length) carrying the
+        border and its order"""
+        return Run(origin, length, border_value._order, border_value)
+
+
+LINE = 6
+
+
+def h15d_layers(cfg, o1, l1, o2, l2, o3, l3):
+    """strokes drawn one after the other along the same line: in the stored runs, read back with 'highest order wins',
+    every position shows the most recent stroke that covers it and nothing else - the saved file agrees with the open
+    document"""
+    side, three = cfg
+    m = StrokeModel()
+    strokes = [(o1, l1), (o2, l2)] + ([(o3, l3)] if three else [])
+    borders = []
+    for o, ln in strokes:
+        assume(0 <= o and 1 <= ln and o + ln <= LINE)
+        b = Border(1.0 + len(borders), RGB(255, 0, 0), "solid")
+        borders.append(b)
+        if side in ("top", "bottom"):
+            m.add_stroke(7, 2, o, side, b, ln)
+        else:
+            m.add_stroke(7, o, 2, side, b, ln)
+    layers = {"top": m.sidecar.top_row_stroke_layers, "bottom": m.sidecar.bottom_row_stroke_layers,
+              "left": m.sidecar.left_column_stroke_layers, "right": m.sidecar.right_column_stroke_layers}[side]
+    assert len(layers) == 1                                   # one layer per line
+    layer = m.objects[layers[0].identifier]
+    assert layer.row_column_index == 2
+    for run in layer.stroke_runs:
+        assert run.length >= 1 and 0 <= run.origin and run.origin + run.length <= LINE
+    for p in range(LINE):
+        want = None
+        for (o, ln), b in zip(strokes, borders):
+            if o <= p < o + ln:
+                want = b                                      # the most recent stroke covering p
+        got = None
+        best = -1
+        for run in layer.stroke_runs:
+            if run.origin <= p < run.origin + run.length and run.order > best:
+                best = run.order
+                got = run.border
+        assert got is want
+    for b in borders:
+        assert b._order >= 1
+    assert borders[1]._order > borders[0]._order
+
+
 SIDES = ["top", "right", "bottom", "left"]
 OUT = ["style attribute round trip (paragraph / cell style archives: nested protobuf construction and lookup)",
-       "background images, fonts", "stroke-run patching in the saved layers (add_stroke beyond its order stamp) and re-derivation on reopen",
+       "background images, fonts", "re-derivation of cell borders from the stored runs on reopen beyond 'highest order wins' (protobuf I/O)",
        "strokes addressed to interior edges of merged blocks"]
 HARNESSES = [
     Harness("H15a", h15a_one_stroke, dict(row=IntDom(), col=IntDom(), side=Cases(SIDES), length=IntDom()),
@@ -144,4 +248,33 @@ HARNESSES.append(
     Harness("H15c", h15c_merged_neighbour, dict(row=IntDom(), col=IntDom(), side=Cases(SIDES), older=BoolDom()),
             bounds="4x3 table with a 2x1 merged block; stroke on any exterior edge of the block drawn from the plain neighbour, "
                    "with or without an earlier stroke drawn from the block's side"))
+from numbers_parser.generated import TSPMessages_pb2 as TSPMessages  # noqa: E402
+from numbers_parser.generated import TSTArchives_pb2 as TSTArchives  # noqa: E402
+
+import numbers_parser.model as modelmod  # noqa: E402
+
+
+class ModProxy:
+    """a generated protobuf module with a few message constructors replaced by attribute bags"""
+
+    def __init__(self, real, **over):
+        self._real = real
+        self.__dict__.update(over)
+
+    def __getattr__(self, name):
+        return getattr(self._real, name)
+
+
+FAKE_TST = ModProxy(TSTArchives, StrokeLayerArchive=Rec(StrokeRunArchive=Run))
+FAKE_TSP = ModProxy(TSPMessages, Reference=Ref)
+HARNESSES.append(
+    Harness("H15d", h15d_layers,
+            lambda tier: dict(cfg=Cases([("top", False), ("top", True), ("left", False)] if tier == "quick" else
+                                        [(sd, th) for sd in SIDES for th in (False, True)]),
+                              o1=IntDom(), l1=IntDom(), o2=IntDom(), l2=IntDom(), o3=IntDom(), l3=IntDom()),
+            bounds="2 or 3 strokes of every start and length along one line of 6 cells (symbolic); quick: top with 2 and 3 strokes, left "
+                   "with 2; thorough: all four sides with 2 and 3 strokes",
+            stubs=["stroke run / layer / sidecar records = attribute bags; create_stroke reduced to its contract (a run record with "
+                   "origin, length, order and the border); object store stub"],
+            patches=[(modelmod, "TSTArchives", FAKE_TST), (modelmod, "TSPMessages", FAKE_TSP)]))
 PROPERTY = "C15"
